@@ -24,6 +24,7 @@ var purePkgs = map[string]bool{
 	"reflect": true, "context": true, "sync": true, "time": true, "unicode/utf8": true, "regexp": true, "runtime": true,
 	"github.com/getlantern/errors": true, "path/filepath": true, "math/rand": true, "net/url": true,
 	"hash": true, "io": true, "os": true, "io/ioutil": true, "crypto/sha256": true, "encoding/hex": true, "bufio": true, "github.com/getlantern/bytemap": true, "github.com/spaolacci/murmur3": true,
+	"github.com/HdrHistogram/hdrhistogram-go": true, // histograms are private heap objects of the library: no effect on modelled state
 }
 
 func (tx *FnTx) setResult(v ssa.Value, sig *types.Signature, res []Term) {
